@@ -97,8 +97,10 @@ theorem stepOk_matchRangeLoop {text p0 s} (h : AllInv text p0 s) (lo hi : Bytes)
     unfold matchRangeLoop
     simp only
     split
-    · exact stepOk_consumeNext h _
     · exact ih
+    · split
+      · exact stepOk_consumeNext h _
+      · exact ih
 
 theorem stepOk_matchRange {text p0 s} (h : AllInv text p0 s) (lo hi : Bytes) (neg : Bool) :
     StepOk text p0 (s.matchRange text lo hi neg) :=
